@@ -150,11 +150,20 @@ func opGroupAndMeta(r *rand.Rand, scenarios int) {
 					}
 				}
 			}
+			if e := c.GroupErr[group]; e != 0 { // the coordinator fails every OffsetFetch of the group with this code
+				st = append(st, fmt.Sprintf("*/0=E%d", e))
+			}
 			sort.Strings(st)
 			return dash(strings.Join(st, ";"))
 		}
 
 		for i := 0; i < 12; i++ {
+			c.Lock()
+			delete(c.GroupErr, group)
+			if r.Intn(8) == 0 { // e.g. COORDINATOR_LOAD_IN_PROGRESS / GROUP_AUTHORIZATION_FAILED
+				c.GroupErr[group] = int16([]int{14, 30}[r.Intn(2)])
+			}
+			c.Unlock()
 			// ---- OffsetFetch
 			req := &kafka.OffsetFetchRequest{GroupID: group, Topics: map[string][]int{}}
 			var enc []string
@@ -269,7 +278,16 @@ func opGroupAndMeta(r *rand.Rand, scenarios int) {
 				offs, err := cl.ConsumerOffsets(context.Background(), kafka.TopicAndGroup{Topic: tn, GroupId: group})
 				op := fmt.Sprintf("coffsets %s %s %d", st, tn, np)
 				if err != nil {
-					emit(op, "err")
+					var ps []string
+					var ids []int
+					for p := range offs {
+						ids = append(ids, p)
+					}
+					sort.Ints(ids)
+					for _, p := range ids {
+						ps = append(ps, fmt.Sprintf("%d=%d", p, offs[p]))
+					}
+					emit(op, fmt.Sprintf("err %d %s", errCode(err), dash(strings.Join(ps, ","))))
 				} else {
 					var ps []string
 					var ids []int
